@@ -41,12 +41,6 @@ def applyBin (op : BinOp) (l r : Number) : Outcome Number :=
   | .or => Number.or l r
   | .xor => Number.xor l r
 
-/-- names whose evaluation leaves the Number-only model -/
-def looksLikeFormula (s : String) : Bool :=
-  match s.toList with
-  | c :: _ => c.isUpper && s.toList.all (fun c => c.isAlphanum)
-  | [] => true
-
 mutual
 def evalExpr (ctx : Ctx) : Expr → Outcome Number
   | .unit name =>
@@ -54,7 +48,7 @@ def evalExpr (ctx : Ctx) : Expr → Outcome Number
     else match ctx.lookup name with
       | some n => .ok n
       | none =>
-        if ctx.reg.isSubstanceLike name || looksLikeFormula name then .unsupported "substance"
+        if ctx.reg.isSubstanceLike name || ctx.reg.isFormula name then .unsupported "substance"
         else .err .notfound
   | .quote s => .ok (Number.oneUnit s)
   | .const v => .ok (Number.ofNumeric v)
@@ -90,7 +84,7 @@ def evalExpr (ctx : Ctx) : Expr → Outcome Number
         match ctx.reg.substance name with
         | some s => Substance.get s p
         | none =>
-          if ctx.reg.isSubstanceLike name || looksLikeFormula name then .unsupported "substance" else .err .notfound
+          if ctx.reg.isSubstanceLike name || ctx.reg.isFormula name then .unsupported "substance" else .err .notfound
   | .ofProp p (.mul es) => do
     let (amount, sub) ← evalFactors ctx Number.one none es
     match sub with
@@ -125,7 +119,7 @@ def evalFactors (ctx : Ctx) (acc : Number) (sub : Option Substance) : List Expr 
            | none => evalFactors ctx acc (some s) es
            | some _ => .err .generic)
         | none =>
-          if ctx.reg.isSubstanceLike name || looksLikeFormula name then .unsupported "substance" else .err .notfound
+          if ctx.reg.isSubstanceLike name || ctx.reg.isFormula name then .unsupported "substance" else .err .notfound
   | e :: es => do
     let n ← evalExpr ctx e
     evalFactors ctx (Number.mul acc n) sub es
